@@ -3,8 +3,8 @@
 import sys, os, json, shutil
 prop, k, caught, missed = sys.argv[1:5]
 note = sys.argv[5] if len(sys.argv) > 5 else ""
-src = f"/tmp/mut/out/{prop}"
-dst = f"/verif/seeded/{prop}-m{k}"
+src = os.environ.get("SRC", f"/tmp/mut/out/{prop}")
+dst = f"/verif/seeded/{prop}-" + os.environ.get("TAG", "m") + f"{k}"
 os.makedirs(dst, exist_ok=True)
 shutil.copy(f"{src}/mutant{k}.diff", f"{dst}/patch.diff")
 shutil.copy(f"{src}/demo{k}.rs", f"{dst}/demo.rs")
